@@ -6,7 +6,10 @@ import (
 	corev1 "k8s.io/api/core/v1"
 	"strings"
 
+	kruiseappsv1alpha1 "github.com/openkruise/kruise-api/apps/v1alpha1"
 	rolloutsv1beta1 "github.com/openkruise/rollouts/api/v1beta1"
+	"github.com/openkruise/rollouts/pkg/util"
+	"k8s.io/apimachinery/pkg/runtime"
 	"k8s.io/apimachinery/pkg/util/intstr"
 )
 
@@ -197,7 +200,7 @@ func (VoidMonitor) OnWrite(x *Ctx, w *Write) {
 		switch {
 		case !ts.CanarySvcExists:
 			voidOK, voidWhy = false, "the canary Service does not exist"
-		case ts.CanarySvcRevision != shortHash(v.UpdateRev) && !requested(x.Mon, "rollback", "release3") && !(sc.Style == "canary" && sc.PatchPodMeta):
+		case ts.CanarySvcRevision != shortHash(v.UpdateRev) && !cancellationUnderWay(x, w) && !(sc.Style == "canary" && sc.PatchPodMeta):
 			// (with patchPodTemplateMetadata the canary Deployment's template, hence its hash, differs from the
 			// workload's own update revision: there only the selection of the pods themselves is judged)
 			voidOK, voidWhy = false, fmt.Sprintf("the canary Service selects revision %q, the revision being released is %q", ts.CanarySvcRevision, shortHash(v.UpdateRev))
@@ -245,6 +248,27 @@ func (VoidMonitor) OnWrite(x *Ctx, w *Write) {
 			x.Violate("C04/order/last-stable-pod-before-unpin", fmt.Sprintf("BatchRelease controller allowed every pod to be updated (%s) while the stable Service is still pinned to the stable revision %q and receives %d%% of the traffic", v.KnobText, stable, 100-ts.CanaryShare))
 		}
 	}
+}
+
+// cancellationUnderWay: the user reverted or superseded the release and the BatchRelease of the abandoned
+// release has not been removed yet. During that window the canary Service legitimately still selects the
+// abandoned revision (its pods exist and the routes are being withdrawn, gateway -> BatchRelease -> canary
+// Service); once that BatchRelease is gone a route to the canary Service is judged against the revision now
+// being released again.
+func cancellationUnderWay(x *Ctx, w *Write) bool {
+	if !requested(x.Mon, "rollback", "release3") {
+		return false
+	}
+	cancelled := x.Mon["ctx.brAtCancel"]
+	if cancelled == "" || cancelled == "none" {
+		return true // the change did not arrive during a rollout: no cancellation order to hold the controller to
+	}
+	for _, o := range x.W.Store.PeekAll("batchreleases") {
+		if string(accessor(o).GetUID()) == cancelled {
+			return true
+		}
+	}
+	return w != nil && w.Key.GVR.Resource == "batchreleases" && w.Before != nil && string(accessor(w.Before).GetUID()) == cancelled && w.Verb != "delete"
 }
 
 func b01(b bool) string {
@@ -302,6 +326,23 @@ func (RollbackOrderMonitor) OnWrite(x *Ctx, w *Write) {
 	if cancelled == "" || cancelled == "none" {
 		return
 	}
+	// dispatch: a revert of a release with traffic routing is a cancellation (rollback in batches is only for
+	// rollouts without traffic routing). A reconcile that could see the revert (the workload's status had caught
+	// up with its spec when the reconcile began) must not go on walking the steps.
+	if w.Actor == "R" && w.Status && w.Key.GVR.Resource == "rollouts" && requested(x.Mon, "rollback") && !requested(x.Mon, "release3", "exit") && x.Pre != nil && x.Pre.Workload != nil {
+		b, a := asRollout(w.Before), asRollout(w.After)
+		pg, po := generationOf(x.Pre.Workload)
+		if b != nil && a != nil && pg == po && progressingReason(b) == "InRolling" && progressingReason(a) == "InRolling" {
+			bi, bs, _, _ := StepCursor(b)
+			ai, as, _, _ := StepCursor(a)
+			if bi != ai || bs != as {
+				if !rollbackVisible(x.Pre.Workload) {
+					x.Mon["ctx.revertNotVisible"] = "1"
+				}
+				x.Violate("C10/dispatch/reverted-release-keeps-stepping/"+sc.Kind+"-"+sc.Style+revertContext(x.Mon), fmt.Sprintf("the workload was reverted to the stable revision (and its status had caught up), but the Rollout went on through its steps: step %d/%s -> %d/%s under reason InRolling instead of cancelling the release", bi, bs, ai, as))
+			}
+		}
+	}
 	stillThere := false
 	for _, o := range x.W.Store.PeekAll("batchreleases") {
 		if string(accessor(o).GetUID()) == cancelled {
@@ -352,6 +393,58 @@ func (RollbackOrderMonitor) OnState(x *Ctx, quiescent bool) {
 		return
 	}
 	x.Count("C10 settled states after rollback judged")
+	cancelled := x.Mon["ctx.brAtCancel"]
+	if cancelled == "" || cancelled == "none" {
+		return // the revert did not arrive during a rollout
+	}
+	cond := util.GetRolloutCondition(ro.Status, rolloutsv1beta1.RolloutConditionSucceeded)
+	if cond == nil || cond.Status != corev1.ConditionFalse {
+		st := "absent"
+		if cond != nil {
+			st = string(cond.Status)
+		}
+		x.Violate("C10/end/rollback-not-reported-as-not-succeeded/"+x.Sc.Kind+"-"+x.Sc.Style+revertContext(x.Mon), "the release was reverted during the rollout and the rollout has ended (phase Healthy), but its Succeeded condition is "+st+" instead of False")
+	}
+}
+
+// revertContext: history class of a revert (part of the signature).
+func revertContext(m MonState) string {
+	if m["ctx.revertNotVisible"] != "" {
+		return "/workload-status-showed-no-rollback-in-progress"
+	}
+	return ""
+}
+
+// rollbackVisible: does the workload's own status show a rollback in progress? A CloneSet / StatefulSet does so
+// only while its current revision equals its update revision and not every pod is counted as updated; a revert
+// that arrives before any pod was updated, after every pod was updated (the workload has adopted the released
+// revision as its current one), or that the workload controller has already carried out, looks like a template
+// change. A Deployment is compared by template and always shows it.
+func rollbackVisible(o runtime.Object) bool {
+	switch t := o.(type) {
+	case *kruiseappsv1alpha1.CloneSet:
+		return t.Status.CurrentRevision == t.Status.UpdateRevision && t.Status.UpdatedReplicas != t.Status.Replicas
+	case *apps.StatefulSet:
+		return t.Status.CurrentRevision == t.Status.UpdateRevision && t.Status.UpdatedReplicas != t.Status.Replicas
+	case *kruiseappsv1alpha1.DaemonSet:
+		return false // the finder has no rollback test for a DaemonSet at all
+	}
+	return true
+}
+
+// generationOf returns (metadata.generation, status.observedGeneration) of a workload object.
+func generationOf(o runtime.Object) (int64, int64) {
+	switch t := o.(type) {
+	case *kruiseappsv1alpha1.CloneSet:
+		return t.Generation, t.Status.ObservedGeneration
+	case *apps.Deployment:
+		return t.Generation, t.Status.ObservedGeneration
+	case *apps.StatefulSet:
+		return t.Generation, t.Status.ObservedGeneration
+	case *kruiseappsv1alpha1.DaemonSet:
+		return t.Generation, t.Status.ObservedGeneration
+	}
+	return 0, -1
 }
 
 // canarySelection counts the live pods of the revision being released and how many of them the canary Service's
